@@ -126,6 +126,12 @@ def tOkP (p : Bool) (t : TPc) : Bool :=
   | .freeBox => !p
   | _ => true
 
+def isParked (h : HPc) : Bool :=
+  match h with
+  | .wParked _ => true
+  | .fresh | .sp1 | .sp2 | .sp3 | .sp4 | .uTls | .uStack | .uBox _ | .uTsm _ | .failed _ | .handle | .wLoad _ | .wSys _
+  | .jRead | .jFree | .joined | .dCas | .dFree | .detached | .dropped => false
+
 def hFreedTsm (h : HPc) : Bool :=
   match h with
   | .fresh => false
@@ -331,7 +337,9 @@ structure IInv (x : Inst) : Prop where
   dpath : hLostPath x.h = true → x.winner = some .T
   aw : hAfterWait x.h = true → x.kdone = true ∧ x.hsees = true
   kd : x.kdone = true → x.t = .dead
-  wordI : x.h ≠ .fresh → x.word = 1 ∨ (x.kdone = true ∧ x.ctid = true)
+  wordI : x.h ≠ .fresh → (x.word = 1 ∧ (x.kdone = false ∨ x.ctid = false)) ∨ (x.word = 0 ∧ x.kdone = true ∧ x.ctid = true)
+  ctidW : x.t ≠ .notStarted → x.ctid = false → x.winner = some .H
+  parkedI : isParked x.h = true → x.kdone = false
   ctidI : (x.t = .freeTsm ∨ (x.winner = some .H ∧ tPastFlag x.panicked x.t = true)) → x.ctid = false
   runsI : x.runs = b2n (tRan x.t)
   ret0 : tRan x.t = false → x.ret = none ∧ x.panicked = false
@@ -342,7 +350,7 @@ structure IInv (x : Inst) : Prop where
 
 theorem init_inv : IInv Inst.init := by
   constructor <;> simp [Inst.init, spawnedOk, tlsOf, stackOf, boxOf, tsmOf, tlsH, stackH, boxH, cnt, hFreedTsm,
-    tPastFlag, tLost, hLostPath, hAfterWait, tRan, b2n, tPastWrite, hReadDone, tOkP]
+    tPastFlag, tLost, hLostPath, hAfterWait, tRan, b2n, tPastWrite, hReadDone, tOkP, isParked]
 
 
 /-! relations between the H-side predicates (so that T's and K's steps never need a case split on H's pc) -/
@@ -355,10 +363,13 @@ theorem hAfter_spawned (h : HPc) (hf : hAfterWait h = true) : spawnedOk h = true
 theorem hRead_after (h : HPc) (hf : hReadDone h = true) : hAfterWait h = true := by
   cases h <;> simp_all [hAfterWait, hReadDone]
 
+theorem isParked_cases (h : HPc) (hf : isParked h = true) : h = .wParked true ∨ h = .wParked false := by
+  cases h <;> simp_all [isParked]
+
 attribute [grind] touchTsm touchTls touchStack touchBox freeTsm freeTls freeStack freeBox notLive
      tlsOf stackOf boxOf tsmOf cnt spawnedOk tlsH stackH boxH hFreedTsm hLostPath hAfterWait hReadDone
-     tPastFlag tFreedTls tFreedStack tFreedBox tLost tRan tPastWrite b2n afterWait afterFlag expectOf tOkP
-attribute [grind →] hFreed_cases hLost_spawned hAfter_spawned hRead_after
+     tPastFlag tFreedTls tFreedStack tFreedBox tLost tRan tPastWrite b2n afterWait afterFlag expectOf tOkP isParked
+attribute [grind →] hFreed_cases hLost_spawned hAfter_spawned hRead_after isParked_cases
 
 set_option hygiene false in
 /-- unfold one event of `stepI`, discard the disabled branches, and re-establish every clause -/
@@ -366,7 +377,7 @@ macro "inv_event" : tactic => `(tactic| (
   obtain ⟨c1, c2, c3, c4, c5, c6, c7, c8, c9⟩ := hc
   simp only [stepI] at h
   obtain ⟨started, tlsEq, stackEq, boxEq, tsmEq, tlsC, stackC, boxC, tsmC, nbad, nrace, wH, wT, flagT, flagF, lost, pastW, pOK, dpath, aw, kd,
-    wordI, ctidI, runsI, ret0, ret1, ret2, slot0, joinI⟩ := hinv
+    wordI, ctidW, parkedI, ctidI, runsI, ret0, ret1, ret2, slot0, joinI⟩ := hinv
   repeat' split at h
   all_goals first | (simp at h; done) | skip
   all_goals (simp only [Option.some.injEq] at h; subst h)
